@@ -62,6 +62,19 @@ def gen_plan(rng, tier):
                   {'at': round(t1 + rng.choice([0.05, 0.2, 0.4, 0.7, 1.0, 1.5, 2.0]), 3), 'kind': rng.choice(['ev_removed', 'ev_removed', 'crash']),
                    'node': i, 'how': 'rst', 'announce': 0.01}]
         slow = {'node': i, 'mult': rng.choice([10, 30, 60])}
+    elif rng.random() < 0.2:
+        # an UP event for a node that is (still or again) down, arriving while its reconnector is waiting for its next attempt:
+        # on_up runs, pool creation fails, and the host must end up with a reconnector again
+        i = rng.randrange(1, n)
+        t0 = rng.choice([0.4, 0.8])
+        events = [{'at': t0, 'kind': 'crash', 'node': i, 'how': rng.choice(['rst', 'rst', 'blackhole']), 'announce': rng.choice([None, 0.01])}]
+        t1 = t0
+        for _ in range(rng.choice([1, 1, 2])):
+            t1 += rng.choice([0.1, 0.25, 0.5, 0.9])
+            events.append({'at': round(t1, 3), 'kind': 'ev_up_false', 'node': i, 'how': 'rst', 'announce': None})
+        if rng.random() < 0.3:
+            events.append({'at': round(t1 + rng.choice([0.3, 1.0]), 3), 'kind': rng.choice(['ev_up_dup', 'ev_down_stale', 'rst_control']), 'node': rng.randrange(n),
+                           'how': 'rst', 'announce': None})
     return {'cluster': default_cluster_spec(n), 'version': 4, 'events': events, 'sessions': rng.choice([1, 1, 2]), 'slow_connect': slow,
             'executor_threads': rng.choice([1, 2, 4]), 'window': rng.choice([0, 0.2, 1.0]),
             'reconnect_delay': rng.choice([0.3, 0.7, 1.5]), 'traffic': rng.random() < 0.6,
